@@ -150,3 +150,33 @@ class GenBlock:
                        is_str(result) and result.startswith("subcircuit " + statement._iterations._name + " "))
 
     raises_only = ()
+
+
+@spec
+def bound_text(b):
+    """how an alias bound is printed: a literal by str(), a let by its name"""
+    if is_int(b):
+        return str(b)
+    return b._name
+
+
+@contract("generator.generator:notate_slice", props=["C01"])
+class NotateSlice:
+    """an alias slice is printed bound by bound: start (0 when absent), stop, and the stride WHENEVER one is given -
+    a let-valued stride by its name even if its current value is 1 (it may be overridden later)"""
+
+    def requires(s):
+        return (isinstance(s, slice)
+                and (s.start is None or is_int(s.start) or (type_is(s.start, Constant) and is_str(s.start._name)))
+                and (is_int(s.stop) or (type_is(s.stop, Constant) and is_str(s.stop._name)))
+                and (s.step is None or (is_int(s.step) and s.step != 0) or (type_is(s.step, Constant) and is_str(s.step._name))))
+
+    def ensures_no_stride(s, result):
+        return implies(s.step is None, is_str(result)
+                       and result == ("0" if (s.start is None or same(s.start, 0)) else bound_text(s.start)) + ":" + bound_text(s.stop))
+
+    def ensures_stride(s, result):
+        return implies(s.step is not None, is_str(result)
+                       and result == ("0" if (s.start is None or same(s.start, 0)) else bound_text(s.start)) + ":" + bound_text(s.stop) + ":" + bound_text(s.step))
+
+    raises_only = ()
